@@ -5,7 +5,10 @@ RULE = ("layer level: every decoder x every length 0..Lmax x contents {zeros, 0x
         "(control-flow bytes set), guard-passing (valid checksums / signatures / AES pads with the key known)}; each input is run "
         "by the harness on an exact-capacity copy under recover() and on two poisoned 1024-byte buffers (a result that "
         "depends on the poison is an over-read); predicate = implementation output is not 'fault'; tie = implementation "
-        "output == Impl model output.  A case is distinct by (layer, bytes).")
+        "output == Impl model output.  connection level: the reply at every position of a session-less command, each handshake "
+        "exchange and an in-session command replaced by every prefix / byte substitutions / garbage.  procedure level: "
+        "cipher-suite discovery on record data cut at every position and with every byte replaced by each tag class.  "
+        "A case is distinct by (layer, bytes) / (position, mutation) / record data.")
 
 
 def gen(ch):
@@ -118,15 +121,65 @@ def run(ch, build):
         conn.c05_pipeline(ch, build)
     except ImportError:
         ch.notes.append("pipeline level not built yet")
+    procedures(ch)
     return ch.finish(rule=RULE, assumptions=[
         "a panic is observed on an exact-capacity copy; an over-read as a poison-dependent result (two poisons)",
         "AES/HMAC instances of the model are validated against Go's crypto on the inputs of this run",
     ])
 
 
+def procedures(ch):
+    """cipher-suite discovery (run by default inside session establishment) on record data cut at EVERY position:
+    every prefix of record streams mixing standard and OEM records, and every single byte of them replaced by each
+    tag class; predicate: a value or an error, never a panic; tie: Coq retrieve_chunks + parse_records"""
+    from . import conn
+    rng = ch.rng
+    streams = [bytes.fromhex("c00301410180" "c1051122330242438182" "c011034481"),
+               bytes.fromhex("c10901000001" "c0020140" "c1070a0b0c0341428283" "c00c02"),
+               bytes.fromhex("c0010141" "c102aabbcc01" "c103ddeeff02418183" "c00403444180")]
+    datas = []
+    for st in streams:
+        datas += [("prefix", st[:k]) for k in range(len(st) + 1)]
+        pos = range(len(st)) if not ch.quick() else rng.sample(range(len(st)), 12)
+        for k in pos:
+            for v in (0x00, 0x41, 0x81, 0xC0, 0xC1, 0xFF):
+                b = bytearray(st); b[k] = v
+                datas.append(("setbyte", bytes(b)))
+    scns = [{"bmc": conn.default_bmc(seed=6, records=d.hex()), "timeout_ms": 40, "steps": [{"op": "ciphersuites"}]} for _, d in datas]
+    outs = conn.run_scenarios(scns)
+    lines = []
+    for _, d in datas:
+        chunks = [d[i:i + 16] for i in range(0, len(d), 16)]
+        if len(d) % 16 == 0:
+            chunks.append(b"")
+        lines.append("csretrieve %s" % ",".join((c.hex() or "-") for c in chunks))
+    model = core.oracle(lines)
+    for (kind, d), scn, out, mo in zip(datas, scns, outs, model):
+        res = out["steps"][0]
+        desc = {"kind": "procedure", "procedure": "ciphersuites", "family": kind, "len": len(d)}
+        ch.note_case("procedure-ciphersuites-" + kind, d.hex())
+        if res.get("panic") or res["err"] == "panic":
+            ch.violation(desc, {"scenario": scn, "panic": res.get("panic"), "record_data": d.hex(),
+                                "what": "cipher-suite discovery panicked on record data a BMC can send before any authentication"})
+            continue
+        impl = ("ok " + res.get("value", "")).strip() if res["err"] == "nil" else "err"
+        m_n, m_res = mo.split(" ", 1)
+        if (m_res.strip() if m_res.startswith("ok") else "err") != impl:
+            ch.corr_break(desc, {"scenario": scn, "impl": impl, "model": mo})
+    ch.extra["procedure_cases"] = len(datas)
+
+
 def replay(ch, build, path):
     import json
     r = json.load(open(path))
+    if "scenario" in r["detail"]:
+        from . import conn
+        out = conn.run_scenarios([r["detail"]["scenario"]])[0]
+        bad = any(st.get("panic") or st["err"] == "panic" for st in out["steps"])
+        print(json.dumps(out["steps"])[:1500])
+        if bad:
+            print("VIOLATION property=C05 replay=%s" % path)
+        return 1 if bad else 0
     cmd = r["detail"]["input"]
     go = core.harness([cmd])[0]
     model = core.oracle([cmd])[0]
